@@ -23,7 +23,7 @@ import (
 // value classes per parameter kind; every value is carried as a string (TLC integers are 32 bit)
 func taskParam(row, par, ty, cls string, rng *rand.Rand) string {
 	pick := func(low, mid, high, odd string) string {
-		return map[string]string{"low": low, "mid": mid, "high": high, "odd": odd}[cls]
+		return map[string]string{"low": low, "mid": mid, "high": high, "odd": odd, "huge": high}[cls]
 	}
 	switch par {
 	case "method":
@@ -74,7 +74,7 @@ func taskParam(row, par, ty, cls string, rng *rand.Rand) string {
 		}
 		return s
 	case "bytes":
-		n := map[string]int{"low": 0, "mid": 37, "high": 200000, "odd": 1}[cls]
+		n := map[string]int{"low": 0, "mid": 37, "high": 200000, "odd": 1, "huge": 1<<20 + 150001}[cls]
 		b := make([]byte, n)
 		rng.Read(b)
 		return string(b)
@@ -225,9 +225,12 @@ func RunTasks(behs [][]Step, tr *Trace, env Env, sum *Summary) {
 	defer w.Close()
 	rng := rand.New(rand.NewSource(env.Seed + int64(env.Shard)*977))
 	agents := map[string]taskAgent{}
-	for i, kc := range []string{"zero", "nonzero"} {
+	for i, kc := range []string{"zero", "nonzero", "wrap"} {
 		id := uint32(rng.Int63n(0x7ffffff0)) + 2
 		k := world.KeysFor(env.Seed, 10+i, kc == "zero")
+		if kc == "wrap" { // the counter's low half is a few blocks before its end: the carry into the high half falls into the first body
+			copy(k.IV[8:], []byte{0xff, 0xff, 0xff, 0xff, 0xff, 0xff, 0xff, 0xf0 + byte(env.Seed%12)})
+		}
 		if r := w.Register(id, k, refdemon.DefaultMeta(kc)); r.Status != 200 {
 			panic("harness-error: registration failed")
 		}
@@ -265,6 +268,19 @@ func RunTasks(behs [][]Step, tr *Trace, env Env, sum *Summary) {
 			pk.Body.Info = info
 			if pan, to := guarded(func() { w.TS.DispatchEvent(pk) }, 10*time.Second); pan != "" || to {
 				sum.Incidents = append(sum.Incidents, Incident{Behaviour: bi, Step: i, Kind: map[bool]string{true: "hang", false: "panic"}[to], Site: "TaskPrepare:" + row, Detail: firstLines(pan, 12)})
+			}
+		}
+		// the operator looks at the queue ("task list") before the agent checks in
+		looks := 0
+		if lf, ok := cell["looks"].(float64); ok {
+			looks = int(lf)
+		}
+		for n := 0; n < looks; n++ {
+			pk := packager.Package{}
+			pk.Head.Event, pk.Head.User, pk.Body.SubEvent = packager.Type.Session.Type, "neo", packager.Type.Session.Input
+			pk.Body.Info = map[string]any{"DemonID": name, "TaskID": fmt.Sprintf("%08X", 0xF0+n), "CommandLine": "task list", "CommandID": "Teamserver", "Command": "task::list"}
+			if pan, to := guarded(func() { w.TS.DispatchEvent(pk) }, 10*time.Second); pan != "" || to {
+				sum.Incidents = append(sum.Incidents, Incident{Behaviour: bi, Step: n, Kind: map[bool]string{true: "hang", false: "panic"}[to], Site: "task list", Detail: firstLines(pan, 12)})
 			}
 		}
 		r := w.Request(refdemon.CheckIn(ag.id, ag.k))
@@ -332,7 +348,11 @@ func RunTasks(behs [][]Step, tr *Trace, env Env, sum *Summary) {
 		if perr != nil {
 			out = append(out, map[string]any{"cmd": 0, "req": 0, "vals": []string{"?undecodable-reply"}})
 		}
-		tr.Emit(map[string]any{"ev": "Reset", "batch": batchOut, "key": key})
+		tr.Emit(map[string]any{"ev": "Reset", "batch": batchOut, "key": key, "looks": looks})
+		for n := 0; n < looks; n++ {
+			tr.Emit(map[string]any{"ev": "List"})
+		}
+		sum.Counters["looks"] += looks
 		tr.Emit(map[string]any{"ev": "Deliver", "params": shown, "res": map[string]any{"tasks": out, "clear": clear}})
 		sum.Counters["tasks"] += len(batch)
 		sum.Counters["delivered"] += len(out)
